@@ -103,8 +103,11 @@ def verLe (a b : Tup) : Bool := VerOrder.cmpVer VerOrder.dpkgRk a b != .gt
 def isMaxOf (inputs : List ATup) (t : ATup) : Bool :=
   inputs.contains t && inputs.all fun i => i.1 != t.1 || verLe i.2.1 t.2.1
 
+/-- the archive tuple a binary package file name spells -/
+def toTup (fn : Str) : Option ATup := (parseBinary fn).map fun nva => ((nva.1, Policy.split nva.2.1, some nva.2.2, fn) : ATup)
+
 def holdsOnC (fns : List Str) (obs : ObsC) : Bool :=
-  match fns.mapM (fun fn => (parseBinary fn).map fun (n, v, a) => ((n, Policy.split v, some a, fn) : ATup)) with
+  match fns.mapM toTup with
   | none => true                      -- not a list of binary package file names
   | some inputs =>
     if inputs.isEmpty then true else
